@@ -7,7 +7,23 @@ cd "$HERE/harness" || exit 2
 mkdir -p "$HERE/.build"
 BIN="$HERE/.build/verif.$$"
 trap 'rm -f "$BIN"' EXIT
-if ! go build -o "$BIN" ./cmd/verif 2>"$HERE/.build/build.$$.log"; then
+OVFLAGS=""
+case "$1" in
+  C12|C20) MODE=time ;;
+  C16) MODE=yield ;;
+  *) MODE="" ;;
+esac
+if [ -n "$MODE" ]; then
+  # Instrumented copies of the CURRENT library sources (virtual clock seam / yield points); /repo is not touched.
+  OVDIR="$HERE/.build/overlay.$$"
+  trap 'rm -rf "$BIN" "$OVDIR"' EXIT
+  if ! go run ./cmd/instr -repo /repo -out "$OVDIR" -mode "$MODE" >"$HERE/.build/build.$$.log" 2>&1; then
+    echo "HARNESS-ERROR cannot instrument /repo's working tree:"; cat "$HERE/.build/build.$$.log"; rm -f "$HERE/.build/build.$$.log"; exit 2
+  fi
+  OVFLAGS="-overlay $OVDIR/overlay.json"
+  export VERIF_OVERLAY="$MODE" VERIF_OVERLAY_DIR="$OVDIR"
+fi
+if ! go build $OVFLAGS -o "$BIN" ./cmd/verif 2>"$HERE/.build/build.$$.log"; then
   echo "HARNESS-ERROR harness does not build against /repo's working tree:"
   cat "$HERE/.build/build.$$.log"; rm -f "$HERE/.build/build.$$.log"
   exit 2
